@@ -64,6 +64,11 @@ HISTORY = {
     "C17c": ("strengthened", "reported only indirectly (an exception in another scenario); added the idxs=0 / empty-selection validation claims"),
     "C18c": ("strengthened", "missed (needs a falsy callable or the empty name); added falsy_callable for six entry points and the empty name to every names scenario"),
     "C20c": ("as built", "symbolic-identity unit on _get_unique_idxs"),
+    # ---- round 4 (told about all earlier locations)
+    "C02d": ("strengthened", "missed (needs a plain backward BEFORE a graph-recording one on the same operator object: state cached on the operator between backward passes); added histories of backward passes (2nd_plain_first, 2nd_resolve)"),
+    "C05d": ("strengthened", "missed (needs svd of a Hermitian-FLAGGED operator with an indefinite spectrum); added svd/herm2x2 (3x3 thorough) over all sign patterns: singular values are the magnitudes of the planted eigenvalues"),
+    "C08d": ("as built", "param_graph/duplicate (the same leaf in two parameter slots)"),
+    # ROUND4_MORE
 }
 
 
